@@ -39,7 +39,8 @@ def main():
         "version": 1,
         # builds the driver and the theorem modules of the claimed properties (a module of an unclaimed,
         # unfinished property cannot break the setup); every check rebuilds what it needs anyway
-        "setup_cmd": "cd lean && lake build driver " + " ".join("CoxeterVerif.Props." + k for k in sorted(CLAIMED)),
+        # setup.sh regenerates the C17/C18 tables from /repo, then builds the driver and the claimed theorem modules
+        "setup_cmd": "./setup.sh",
         "hooks": {
             "guard": "COXETER_VERIF",
             "enable": "no source hooks: the harness observes coxeter in-process from outside (PYTHONPATH=/repo); COXETER_VERIF=1 is exported by ./check but read by nothing in /repo",
